@@ -6,13 +6,16 @@
 EXTENDS TraceIO, Tolerances
 VARIABLES tid, l
 BigX(e) == e.xcls \in {"xlarge", "huge"}
+\* relative index 2.5: sharp resonances amplify the cluster solver's truncation and its single-precision
+\* inputs (a relative change of 1e-8 in n leaves its result bit-identical)
+Dense(e) == e.mcls = "high"
 TolOf(e) ==
    IF e.rel = "layers_equal_canonical" THEN Tol_layers
    ELSE IF e.rel = "thickness_equals_radius" THEN Tol_layers
    ELSE IF e.rel = "S_mie_vs_textbook" THEN (IF BigX(e) THEN Tol_S_mie_big ELSE Tol_S_mie)
    ELSE IF e.rel = "S_pyseries_vs_textbook" THEN (IF BigX(e) THEN Tol_S_mie_big ELSE Tol_S_pyseries)
-   ELSE IF e.rel = "field_mie_vs_multisphere" THEN Tol_mie_multisphere_default
-   ELSE IF e.rel = "field_mie_vs_multisphere_tight" THEN Tol_mie_multisphere_tight
+   ELSE IF e.rel = "field_mie_vs_multisphere" THEN (IF Dense(e) THEN Tol_mie_multisphere_default_dense ELSE Tol_mie_multisphere_default)
+   ELSE IF e.rel = "field_mie_vs_multisphere_tight" THEN (IF Dense(e) THEN Tol_mie_multisphere_tight_dense ELSE Tol_mie_multisphere_tight)
    ELSE IF e.rel = "field_mie_vs_textbook_farfield" THEN (IF BigX(e) THEN Tol_S_mie_big ELSE Tol_S_mie)
    ELSE IF e.rel = "field_finite" THEN -1
    ELSE -30000            \* unknown relation: never accepted
